@@ -73,12 +73,12 @@ func TestVerifGroupRefresh0(t *testing.T) {
 		t.Fatal(err)
 	}
 	defer sim.Close()
-	conf := grpConfig(sc, "c1")
+	conf := grpConfig(sc, sim.clientID("c1"))
 	conf.Metadata.RefreshFrequency = 0
 	if err := conf.Validate(); err != nil {
 		t.Fatal(err)
 	}
-	g, err := NewConsumerGroup([]string{sim.addr(0)}, grpGroup, conf)
+	g, err := NewConsumerGroup([]string{sim.addr(0)}, sim.group, conf)
 	if err != nil {
 		t.Fatal(err)
 	}
